@@ -505,7 +505,8 @@ impl<R: Round> Context<R> {
         assert_finite_operands(lhs, rhs);
 
         let sum = if lhs.is_zero() {
-            self.repr_round_ref(rhs).map(|v| -v)
+            // negate before rounding, so that directed rounding modes see the actual result
+            self.repr_round(-rhs.clone())
         } else if rhs.is_zero() {
             self.repr_round_ref(lhs)
         } else {
